@@ -323,7 +323,8 @@ def main():
             "maporder": (binfo or {}).get("maporder"),
             "workers": workers, "build_s": round(build_s, 1), "run_s": round(run_s, 1),
             "harness": "+".join(harnesses),
-            "exhaustive": False,
+            # only where the seed index enumerates a finite case space completely (C17)
+            "exhaustive": bool(spec.get("exhaustive_if_runs") and n >= spec["exhaustive_if_runs"] and not trouble),
         },
         "assumptions": spec.get("assumptions", []),
         "wall_s": round(wall, 1),
